@@ -389,6 +389,13 @@ func (ctx *_builtinJSON_stringifyContext) str(key Value, holder *Object) bool {
 				ctx.r.typeErrorResult(true, "Converting circular structure to JSON")
 			}
 		}
+		if len(ctx.stack) >= ctx.r.vm.maxCallStackSize {
+			// toJSON methods and replacer functions can produce a fresh object on every level, which the cycle
+			// check above cannot catch: bound the native recursion like a JS call chain (SetMaxCallStackSize)
+			ex := &StackOverflowError{}
+			ex.stack = ctx.r.vm.captureStack(nil, 0)
+			panic(ex)
+		}
 		ctx.stack = append(ctx.stack, value1)
 		defer func() { ctx.stack = ctx.stack[:len(ctx.stack)-1] }()
 		if _, ok := value1.self.assertCallable(); !ok {
